@@ -12,7 +12,7 @@ CONSTANTS
   PropsMenu <- MCPropsD
   RootMenu <- MCRootD
   MetaKeys <- MCKeys
-  Alphabet <- MCAlphabet
+  Alphabet <- MCAlphabetL
   TxMenu <- MCTxMenu
   QMenu <- MCQMenu
   MaxAddrLen = 2
